@@ -111,7 +111,7 @@ CHECKS = {
             {"check": "C03.array.faulty", "what": "vnadata histories with boundary indices under allocation faults", "quick": B(15000, 20), "thorough": B(500000, 200, 500)},
             {"check": "C03.array.files.faulty", "what": "vnadata save / load histories under stream and allocation faults", "quick": B(5000, 20), "thorough": B(150000, 200, 200)},
             {"check": "C03.doc.faulty", "what": "property-tree histories incl. YAML export / import under allocation (both domains) and stream faults", "quick": B(15000, 20), "thorough": B(500000, 200, 500)},
-            {"check": "C03.cal.store.faulty", "what": "calibration sessions, save / load under faults", "quick": B(1500, 25), "thorough": B(60000, 250, 100)},
+            {"check": "C03.cal.store.faulty", "what": "calibration sessions, save / load under faults", "quick": B(6000, 25), "thorough": B(60000, 250, 100)},
         ],
     },
     "C11": {
@@ -133,9 +133,9 @@ CHECKS = {
             {"check": "C11.doc", "what": "property trees: refused set / set_subtree / delete / copy change nothing; import / export reporting", "quick": B(20000, 25), "thorough": B(600000, 250, 500)},
             {"check": "C11.array", "what": "vnadata objects: refused setters, resize, set_type, convert change no getter's answer; reporting form", "quick": B(20000, 25), "thorough": B(600000, 250, 500)},
             {"check": "C11.array.files.faulty", "what": "vnadata save / load / cksave with stream and allocation faults: destination usable, reporting form", "quick": B(6000, 25), "thorough": B(200000, 250, 200)},
-            {"check": "C11.cal", "what": "parameters, sessions, standards with invalid ports / handles, add_calibration indices, silent queries", "quick": B(3000, 35), "thorough": B(120000, 400, 100)},
-            {"check": "C11.cal.retry", "what": "failed solves (too few standards) retried after adding standards", "quick": B(2000, 30), "thorough": B(80000, 300, 100)},
-            {"check": "C11.cal.store.faulty", "what": "vnacal save / load under stream and allocation faults: reporting, nothing left behind", "quick": B(1500, 25), "thorough": B(60000, 250, 100)},
+            {"check": "C11.cal", "what": "parameters, sessions, standards with invalid ports / handles, add_calibration indices, silent queries", "quick": B(12000, 35), "thorough": B(120000, 400, 100)},
+            {"check": "C11.cal.retry", "what": "failed solves (too few standards) retried after adding standards", "quick": B(8000, 30), "thorough": B(80000, 300, 100)},
+            {"check": "C11.cal.store.faulty", "what": "vnacal save / load under stream and allocation faults: reporting, nothing left behind", "quick": B(6000, 25), "thorough": B(60000, 250, 100)},
             {"check": "C11.chaos", "what": "chaos call sequences (measurement-error model, tolerances, correlated parameters, rectangular shapes): reporting discipline of every call", "quick": B(15000, 20), "thorough": B(600000, 250, 500)},
             {"check": "C11.corrupt", "what": "damaged files: clean failure (errno, one-line report, no INTERNAL), destination still usable", "quick": B(6000, 20, 50), "thorough": B(300000, 250, 200)},
         ],
@@ -154,7 +154,7 @@ CHECKS = {
         ],
         "expected_probes": ["replace_by_name", "cal_deleted", "param_deleted", "twin_agrees", "property_roots_separate", "refused"],
         "subchecks": [
-            {"check": "C16", "what": "interleaved sessions, clean configuration", "quick": B(6000, 50), "thorough": B(300000, 700, 100)},
+            {"check": "C16", "what": "interleaved sessions, clean configuration", "quick": B(24000, 50), "thorough": B(300000, 700, 100)},
         ],
     },
     "C17": {
@@ -169,7 +169,7 @@ CHECKS = {
         ],
         "expected_probes": ["twin_agrees", "twin_permuted", "twin_entry_points", "twin_per_frequency", "twin_e12_ue14", "twin_ab_scaled"],
         "subchecks": [
-            {"check": "C17", "what": "twin descriptions", "quick": B(5000, 50), "thorough": B(250000, 700, 100)},
+            {"check": "C17", "what": "twin descriptions", "quick": B(20000, 50), "thorough": B(250000, 700, 100)},
         ],
     },
     "C20": {
@@ -184,8 +184,8 @@ CHECKS = {
         ],
         "expected_probes": ["insufficient_reported", "solve_after_failures"],
         "subchecks": [
-            {"check": "C20", "what": "accumulate / solve histories", "quick": B(5000, 40), "thorough": B(250000, 500, 100)},
-            {"check": "C20.cal.faulty", "what": "allocation failures inside add and solve", "quick": B(2000, 15), "thorough": B(80000, 200, 100)},
+            {"check": "C20", "what": "accumulate / solve histories", "quick": B(20000, 40), "thorough": B(250000, 500, 100)},
+            {"check": "C20.cal.faulty", "what": "allocation failures inside add and solve", "quick": B(8000, 20), "thorough": B(80000, 200, 100)},
         ],
     },
     "C10": {
@@ -201,7 +201,7 @@ CHECKS = {
         ],
         "expected_probes": ["knot_exact", "interp_ok", "history_independent", "range_refused", "apply_order_independent"],
         "subchecks": [
-            {"check": "C10", "what": "interpolation and range histories", "quick": B(5000, 40), "thorough": B(250000, 500, 100)},
+            {"check": "C10", "what": "interpolation and range histories", "quick": B(20000, 40), "thorough": B(250000, 500, 100)},
         ],
     },
     "C07": {
@@ -219,9 +219,9 @@ CHECKS = {
         ],
         "expected_probes": ["vsave_ok", "vload_ok", "vload_apply_exact", "vload_apply_close", "vnacal3_alias", "vnacal_property_tree_compared"],
         "subchecks": [
-            {"check": "C07", "what": "clean configuration", "quick": B(5000, 50), "thorough": B(250000, 600, 100)},
+            {"check": "C07", "what": "clean configuration", "quick": B(20000, 50), "thorough": B(250000, 600, 100)},
             {"check": "C07.cal.faulty", "what": "allocation (libvna and libyaml), write, close, open and read faults in save and load",
-             "quick": B(2500, 25), "thorough": B(100000, 250, 100)},
+             "quick": B(10000, 25), "thorough": B(100000, 250, 100)},
         ],
     },
     "C09": {
